@@ -67,9 +67,14 @@ def rule_1(ctx):
                                 ctx.ok(x, f'{qual}: store range value')
                                 continue
                             from_cells = c04._derives_from_cells(x.value, fn)
-                            conds = flow.path_conditions(node)
-                            after_guard = any((not c.polarity) and c04._no_formula_test(c.test) for c in conds)
-                            ctx.expect(from_cells and after_guard, x, f'{qual}: store `{ast.unparse(x)[:40]}`',
+                            sc = evalcore.class_of_method(m, qual)
+                            ex1 = evalcore.site_excluded_for(ctx, m, fn, node, 'no formula', sc)
+                            ex2 = evalcore.site_excluded_for(ctx, m, fn, node, 'formula not to be evaluated', sc)
+                            if ex1 is None or ex2 is None:
+                                ctx.unmodelled(x, 'path condition of the value store cannot be evaluated for an abstract cell')
+                                continue
+                            after_guard = ex1 is True and ex2 is True
+                            ctx.expect(from_cells and after_guard, x, f'{qual}: store of a cell .{x.attr}',
                                        'a cell value is written on a path that is not restricted to formula cells taken '
                                        'from the cells map: constant cells could be changed by an evaluation')
                             continue
